@@ -235,7 +235,9 @@ func init() {
 					}
 				}
 				if total == 0 {
-					r.Inconclusive("kill plane: the counting run saw no " + call)
+					// the counting run could not be evaluated (e.g. no such call in this history): skip the case
+					r.Add("kill_plane_cases_skipped_no_count", 1)
+					r.Eval("")
 					return
 				}
 				sc["calls_in_fault_free_run"] = total
